@@ -130,12 +130,96 @@ static void cmd_write (void)
 	free (path);
 }
 
+static QSbasis *tok_basis2 (void)
+{
+	const char *cs = tok (), *rs = tok ();
+	QSbasis *B = (QSbasis *) calloc (1, sizeof (QSbasis));
+	if (!strcmp (cs, "-")) cs = "";
+	if (!strcmp (rs, "-")) rs = "";
+	B->nstruct = (int) strlen (cs);
+	B->nrows = (int) strlen (rs);
+	B->cstat = strdup (cs);
+	B->rstat = strdup (rs);
+	return B;
+}
+static void put_basis2 (const char *key, QSbasis * B)
+{
+	int i;
+	if (!B) { printf ("%s none\n", key); return; }
+	printf ("%s ", key);
+	if (!B->nstruct) putchar ('-');
+	for (i = 0; i < B->nstruct; i++) putchar (B->cstat ? B->cstat[i] : '?');
+	putchar (' ');
+	if (!B->nrows) putchar ('-');
+	for (i = 0; i < B->nrows; i++) putchar (B->rstat ? B->rstat[i] : '?');
+	putchar ('\n');
+}
+static void put_file (const char *path)
+{
+	FILE *f = fopen (path, "rb");
+	int c;
+	printf ("file ");
+	if (!f) { printf ("missing\n"); return; }
+	c = fgetc (f);
+	if (c == EOF) putchar ('-');
+	for (; c != EOF; c = fgetc (f)) printf ("%02x", c);
+	putchar ('\n');
+	fclose (f);
+}
+/* writebasis <slot> <own | cs rs> <hexpath> */
+static void cmd_writebasis (void)
+{
+	mpq_QSdata *p = slot ();
+	QSbasis *B = 0;
+	char *path;
+	int rv;
+	const char *t = tok ();
+	if (strcmp (t, "own")) { extern void qsx_unget (void); qsx_unget (); B = tok_basis2 (); }
+	path = unhex (tok ());
+	remove (path);
+	rv = mpq_QSwrite_basis (p, B, path);
+	printf ("rv %d\n", rv ? 1 : 0);
+	if (!rv) put_file (path);
+	if (B) { free (B->cstat); free (B->rstat); free (B); }
+	free (path);
+}
+static void cmd_readbasis (void)
+{
+	mpq_QSdata *p = slot ();
+	char *path = unhex (tok ());
+	QSbasis *B = mpq_QSread_basis (p, path);
+	put_basis2 ("basis", B);
+	if (B) mpq_QSfree_basis (B);
+	free (path);
+}
+static void cmd_loadbasis (void)
+{
+	mpq_QSdata *p = slot ();
+	QSbasis *B = tok_basis2 ();
+	int rv = mpq_QSload_basis (p, B);
+	printf ("rv %d\n", rv ? 1 : 0);
+	free (B->cstat); free (B->rstat); free (B);
+}
+static void cmd_putfile (void)
+{
+	char *path = unhex (tok ());
+	char *data = unhex (tok ());
+	FILE *f = fopen (path, "wb");
+	if (f) { fwrite (data, 1, strlen (data), f); fclose (f); printf ("ok\n"); } else printf ("fail\n");
+	free (path); free (data);
+}
+
 int qsx_more_commands (const char *c)
 {
 	if (!strcmp (c, "dumpapi")) dump_api (slot ());
 	else if (!strcmp (c, "scan")) cmd_scan ();
 	else if (!strcmp (c, "read")) cmd_read ();
 	else if (!strcmp (c, "write")) cmd_write ();
+	else if (!strcmp (c, "writebasis")) cmd_writebasis ();
+	else if (!strcmp (c, "readbasis")) cmd_readbasis ();
+	else if (!strcmp (c, "loadbasis")) cmd_loadbasis ();
+	else if (!strcmp (c, "putfile")) cmd_putfile ();
+	else if (!strcmp (c, "getfile")) { char *path = unhex (tok ()); put_file (path); free (path); }
 	else return 0;
 	return 1;
 }
